@@ -60,6 +60,9 @@ fn value_setup(ch: &mut Choices) -> Vec<Line> {
 }
 
 pub fn program(ch: &mut Choices, o: &WildOpts) -> (Vec<Line>, WildInfo) {
+    if ch.chance(1, 14) {
+        return shared_tails(ch);
+    }
     let mut info = WildInfo::default();
     let n_funcs = ch.below(o.max_funcs + 1);
     info.n_funcs = n_funcs;
@@ -334,6 +337,91 @@ pub fn program(ch: &mut Choices, o: &WildOpts) -> (Vec<Line>, WildInfo) {
     }
     if o.faults {
         inject_faults(&mut lines, ch, &mut info, &all_labels, &data_labels);
+    }
+    (lines, info)
+}
+
+/// Functions that share code in a structured way: two or three "donor" functions, each with one or
+/// two labelled tails in front of its own return, and "visitor" functions that branch or jump into
+/// tails of different donors (so a visitor reaches the returns of several other functions, and a
+/// tail belongs to functions with different exits). Visitors stand before, between or behind the donors.
+pub fn shared_tails(ch: &mut Choices) -> (Vec<Line>, WildInfo) {
+    let n_donors = 2 + ch.below(2);
+    let n_visitors = 1 + ch.below(2);
+    let mut info = WildInfo {
+        n_funcs: n_donors + n_visitors,
+        cross_region: true,
+        ..Default::default()
+    };
+    let mut tails: Vec<Vec<String>> = vec![];
+    let mut funcs: Vec<Vec<Line>> = vec![];
+    for d in 0..n_donors {
+        let name = format!("donor{d}");
+        let mut f = vec![Line::Label(name.clone())];
+        f.extend(syn::plain_ins(ch, &[]));
+        let mut ts = vec![];
+        for t in 0..1 + ch.below(2) {
+            let l = format!("{name}_tail{t}");
+            if ch.chance(1, 3) {
+                // the tail is also reached by a branch of its own function
+                f.insert(1, ins(ch.pick_str(&syn::BRANCH2), vec![r(syn::any_reg(ch)), Opd::L(l.clone())]));
+            }
+            f.push(Line::Label(l.clone()));
+            f.extend(syn::plain_ins(ch, &[]));
+            ts.push(l);
+        }
+        f.push(ins("ret", vec![]));
+        tails.push(ts);
+        funcs.push(f);
+    }
+    let mut visitors: Vec<Vec<Line>> = vec![];
+    for v in 0..n_visitors {
+        let name = format!("visitor{v}");
+        let mut f = vec![Line::Label(name.clone())];
+        f.extend(syn::plain_ins(ch, &[]));
+        // enter tails of at least two different donors
+        let mut order: Vec<usize> = (0..n_donors).collect();
+        if ch.chance(1, 2) {
+            order.reverse();
+        }
+        let k = 2 + ch.below(n_donors - 1);
+        for (j, d) in order.iter().take(k).enumerate() {
+            let t = ch.pick(&tails[*d]).clone();
+            let last = j + 1 == k;
+            if last && ch.chance(2, 3) {
+                f.push(ins("j", vec![Opd::L(t)]));
+            } else {
+                f.push(ins(ch.pick_str(&syn::BRANCH2), vec![r(syn::any_reg(ch)), Opd::L(t)]));
+                f.extend(syn::plain_ins(ch, &[]));
+                if last {
+                    info.multi_return = true;
+                    f.push(ins("ret", vec![]));
+                }
+            }
+        }
+        visitors.push(f);
+    }
+    // main calls everything, in some order
+    let mut lines = vec![Line::Label("main".into())];
+    let mut names: Vec<String> = (0..n_donors).map(|d| format!("donor{d}")).chain((0..n_visitors).map(|v| format!("visitor{v}"))).collect();
+    for j in (1..names.len()).rev() {
+        let q = ch.below(j + 1);
+        names.swap(j, q);
+    }
+    for n in &names {
+        lines.push(ins(ch.pick_str(&["jal", "call"]), vec![Opd::L(n.clone())]));
+        info.calls += 1;
+    }
+    lines.push(ins("li", vec![r(A7), i(10)]));
+    lines.push(ins("ecall", vec![]));
+    // interleave visitors among the donors
+    let mut all: Vec<Vec<Line>> = funcs;
+    for v in visitors {
+        let at = ch.below(all.len() + 1);
+        all.insert(at, v);
+    }
+    for f in all {
+        lines.extend(f);
     }
     (lines, info)
 }
